@@ -5944,14 +5944,19 @@ func (a *Agent) doPoll() error {
 		return nil
 	}
 
-	// Disconnect again (still sleeping)
-	if err := a.peerMgr.DisconnectAll(); err != nil {
-		a.logger.Warn("error disconnecting after poll",
-			logging.KeyError, err)
-	}
+	// The state read above is not synchronised with Wake(): a wake may complete
+	// right after it. Tear the poll down under the sleep manager's state lock,
+	// and only if the poll is still current.
+	a.sleepMgr.RunIfPolling(func() {
+		// Disconnect again (still sleeping)
+		if err := a.peerMgr.DisconnectAll(); err != nil {
+			a.logger.Warn("error disconnecting after poll",
+				logging.KeyError, err)
+		}
 
-	// Close poll listeners and remove from agent listeners
-	a.closePollListeners(pollListeners)
+		// Close poll listeners and remove from agent listeners
+		a.closePollListeners(pollListeners)
+	})
 
 	a.logger.Debug("poll cycle complete")
 	return nil
